@@ -40,6 +40,34 @@ class P:
 
 
 @symbol
+@dataclass(eq=True)
+class PE:
+    """Like P but with VALUE equality: two distinct instances with equal fields compare equal (identity != equality)."""
+    a: Any = 1
+    b: Any = 1
+    s: Any = "x"
+    t: Any = ()
+    d: Any = field(default_factory=dict)
+    flag: Any = True
+    ix: int = -1
+
+    def big(self, k=2):
+        return self.a > k
+
+    def inc(self):
+        return self.a + 1
+
+    def getb(self):
+        return self.b
+
+    def has(self, v):
+        return v in self.t
+
+    def __repr__(self):
+        return f"PE#{self.ix}"
+
+
+@symbol
 @dataclass(eq=False)
 class Q:
     a: Any = 1
@@ -117,7 +145,7 @@ PRED_REF = {
     "CGt": lambda x, k: x.a > k,
     "CSame": lambda x, y: x.a == y.a,
 }
-CLASSES = {"P": P, "Q": Q}
+CLASSES = {"P": P, "Q": Q, "E": PE}
 
 
 def arm_fault(at):
@@ -139,7 +167,19 @@ def build_world(spec):
     qs = []
     for i, f in enumerate(spec.get("Q", [])):
         qs.append(Q(a=f.get("a", 1), p=ps[f["p"]] if f.get("p") is not None else None, b=f.get("b", 1), ix=i))
-    return {"P": ps, "Q": qs}
+    es = []
+    for i, f in enumerate(spec.get("E", [])):
+        # ix is deliberately the same for all: it takes part in the generated __eq__, equal-valued objects must compare equal
+        es.append(PE(a=f.get("a", 1), b=f.get("b", 1), s=f.get("s", "x"), t=_tup(f.get("t", ())),
+                     d=dict(f.get("d", {})), flag=f.get("flag", True), ix=-1))
+    return {"P": ps, "Q": qs, "E": es}
+
+
+def add_equal_valued_objects(rng, world, n=(2, 5)):
+    """kind 'E': objects with value equality, several of them equal to each other (copies of 1-2 templates)"""
+    templates = [dict(rng.choice(world["P"])) for _ in range(rng.randint(1, 2))]
+    world["E"] = [dict(rng.choice(templates)) for _ in range(rng.randint(*n))]
+    return world
 
 
 def random_world(rng, np_=(2, 4), nq=(2, 4), lo=1, hi=3, falsy=False, rich=True):
